@@ -51,11 +51,24 @@ type w7Sent struct {
 }
 
 func w7GenRT(c *simrt.Choice, prop, tier string) *w7Script {
+	return w7GenRTOpt(c, prop, tier, w7GenOpt{})
+}
+
+func w7GenRTOpt(c *simrt.Choice, prop, tier string, opt w7GenOpt) *w7Script {
 	sc := &w7Script{Mode: "rt", Trunc: -1}
 	sc.WFault.At = -1
 	sc.Server = c.Intn(2) == 0
 	sc.Comp = c.Intn(2) == 0
+	if opt.multi {
+		// connections of one run have the deflater/inflater pools in common
+		sc.Comp = true
+	}
+	sc.SeedOff = opt.seedOff
 	sc.Level = []int{1, 1, -2, -1, 0, 2, 5, 6, 9}[c.Intn(9)]
+	if opt.multi {
+		// one pool per level: mostly the same level on all connections
+		sc.Level = []int{1, 1, 1, 1, 6, -2}[c.Intn(6)]
+	}
 	sc.WriteBuf = []int{0, 0, 1, 2, 16, 111, 112, 125, 126, 300, 1024}[c.Intn(11)]
 	sc.Pool = c.Intn(3) == 0
 	sc.PeerBuf = []int{0, 0, 1, 256}[c.Intn(4)]
@@ -66,7 +79,7 @@ func w7GenRT(c *simrt.Choice, prop, tier string) *w7Script {
 	if tier == "thorough" {
 		n = 1 + c.Intn(14)
 	}
-	seed := 0
+	seed := opt.seedOff
 	size := func() int {
 		switch c.Pick(6, 5, 4, 3, 1, 1) {
 		case 0:
@@ -122,9 +135,12 @@ func w7GenRT(c *simrt.Choice, prop, tier string) *w7Script {
 			op.Kind = 1
 			op.Via = c.Intn(2) // 0 WriteMessage, 1 NextWriter
 		case 5:
-			op = w7WOp{K: "comp", On: c.Intn(2) == 0}
+			op = w7WOp{K: "comp", On: c.Intn(2) == 0 || opt.multi}
 		case 6:
 			op = w7WOp{K: "level", Level: -2 + c.Intn(12)}
+			if opt.multi {
+				op.Level = []int{1, 1, 6, -2, 12}[c.Intn(5)]
+			}
 		case 7:
 			op = w7WOp{K: "sleep", Us: []int{1, 100, 5000}[c.Intn(3)]}
 		}
@@ -279,25 +295,64 @@ func w7CtlPayload(task byte, seq, n int) []byte {
 	return b
 }
 
+// w7RTSession is one connection of mode "rt": a real writer Conn, its data task, its
+// WriteControl task, and a real reader Conn of the opposite role on the peer side.
+type w7RTSession struct {
+	sc           *w7Script
+	wconn, pconn *w7Conn
+	sent         []*w7Sent
+	pres         *w7ReadRes
+	wpanic       string
+	writerDone   chan struct{}
+	ctlDone      chan struct{}
+	peerDone     chan struct{}
+	hung         bool
+}
+
 func w7RunRT(s *simrt.Sim, sc *w7Script, prop string) {
 	w := &w7World{s: s}
+	ss := w7StartRT(s, w, sc, "", nil, sc.Yield, false)
+	ss.wait(s)
+	ss.check(s)
+}
+
+func (ss *w7RTSession) wait(s *simrt.Sim) {
+	<-ss.writerDone
+	s.Pause()
+	<-ss.ctlDone
+	s.Pause()
+	_ = ss.wconn.Close()
+	// the stream has ended for the peer: it cannot stay blocked (see w7ReadSession.wait)
+	if !w7WaitDone(s, ss.peerDone, time.Hour) {
+		ss.hung = true
+	}
+}
+
+func (ss *w7RTSession) check(s *simrt.Sim) {
+	if ss.hung {
+		s.Violate("C30", "hang", "peer reader did not return", "the peer's read loop had not returned one hour (virtual) after the writer's conn was closed (%d messages delivered)", len(ss.pres.msgs))
+		return
+	}
+	w7CheckRT(s, ss.sc, ss.wconn, ss.pconn, ss.sent, ss.pres, ss.wpanic)
+}
+
+func w7StartRT(s *simrt.Sim, w *w7World, sc *w7Script, name string, shared BufferPool, yield, multi bool) *w7RTSession {
 	pin := w7NewPipe(w, sc.PeerSeg)
-	wconn := &w7Conn{w: w, name: "writer", in: w7NewPipe(w, 0), out: pin, fault: sc.WFault}
-	pconn := &w7Conn{w: w, name: "peer", in: pin, fault: w7WFault{At: -1}}
-	wc := w7NewRealConn(wconn, sc, sc.Server, 0, sc.WriteBuf)
+	pin.yield = yield
+	pin.chain = multi
+	wconn := &w7Conn{w: w, name: name + "writer", in: w7NewPipe(w, 0), out: pin, fault: sc.WFault}
+	pconn := &w7Conn{w: w, name: name + "peer", in: pin, fault: w7WFault{At: -1}}
+	wc := w7NewRealConnPool(wconn, sc, sc.Server, 0, sc.WriteBuf, shared)
 	_ = wc.SetCompressionLevel(sc.Level)
 	psc := *sc
 	psc.Pool = false
 	pc := w7NewRealConn(pconn, &psc, !sc.Server, sc.PeerBuf, 0)
 
-	var sent []*w7Sent
-	rec := func(e *w7Sent) *w7Sent { sent = append(sent, e); return e }
-	writerDone := make(chan struct{})
-	ctlDone := make(chan struct{})
-	peerDone := make(chan struct{})
-	pres := &w7ReadRes{gateOff: -1}
-	var wpanic string
-
+	ss := &w7RTSession{sc: sc, wconn: wconn, pconn: pconn, pres: &w7ReadRes{gateOff: -1},
+		writerDone: make(chan struct{}), ctlDone: make(chan struct{}), peerDone: make(chan struct{})}
+	rec := func(e *w7Sent) *w7Sent { ss.sent = append(ss.sent, e); return e }
+	writerDone, ctlDone, peerDone := ss.writerDone, ss.ctlDone, ss.peerDone
+	pres := ss.pres
 	s.Go(func() {
 		defer close(peerDone)
 		w7ReadLoop(w, pc, sc.PeerAPI, sc.Chunk, nil, pres)
@@ -306,7 +361,7 @@ func w7RunRT(s *simrt.Sim, sc *w7Script, prop string) {
 		defer close(writerDone)
 		defer func() {
 			if r := recover(); r != nil {
-				wpanic = fmt.Sprint(r)
+				ss.wpanic = fmt.Sprint(r)
 			}
 		}()
 		cseq := 0
@@ -454,14 +509,7 @@ func w7RunRT(s *simrt.Sim, sc *w7Script, prop string) {
 			e.acked = e.err == nil
 		}
 	})
-	<-writerDone
-	s.Pause()
-	<-ctlDone
-	s.Pause()
-	_ = wconn.Close()
-	<-peerDone
-	s.Pause()
-	w7CheckRT(s, sc, wconn, pconn, sent, pres, wpanic)
+	return ss
 }
 
 func w7CheckRT(s *simrt.Sim, sc *w7Script, wconn, pconn *w7Conn, sent []*w7Sent, pres *w7ReadRes, wpanic string) {
